@@ -347,7 +347,22 @@ class Executor:
         nan = smt.or_(a.nan, neg)
         for (n0, d0, r0) in self.sqrt_memo:
             same = smt.eq(smt.mul(a.num, d0), smt.mul(n0, a.den))
-            if same.is_const and same.val or (not same.is_const and self.valid(same)):
+            if same.is_const:
+                if same.val:
+                    return VF(r0, R1, nan, a.inf)
+                continue
+            # share the symbol when the two radicands are the same polynomial (decided by normal form; a failed
+            # match only costs completeness: both symbols stay constrained by r >= 0 and r*r = radicand)
+            try:
+                from . import poly
+                pm = {}
+                d = poly.p_add(poly.to_poly(smt.mul(a.num, d0), pm), poly.to_poly(smt.mul(n0, a.den), pm), -1)
+                if not d:
+                    return VF(r0, R1, nan, a.inf)
+                continue
+            except Exception:
+                pass
+            if self.valid(same):
                 return VF(r0, R1, nan, a.inf)
         r = smt.fresh("sqrt")
         self.assumptions.append(smt.and_(smt.ge(r, R0), smt.eq(smt.mul(smt.mul(r, r), a.den), a.num)))
